@@ -29,13 +29,18 @@ def dense_ids(M, vc, n):
     return out
 
 
-def record(b, o, t, cart, f):
+def record(b, o, t, cart, f, partial_first=False):
     from molgri.space.fullgrid import FullGrid
     rec = dict(b=b, o=o, t=t, cartesian=cart, f=f, nP=0, nB=0, err="", posA=[], posB=[], posD=[], rotA=[], rotB=[], rotD=[],
                fullA=[], fullB=[], fullD=[], mulF=[], mulF2=[], vol=[], volTable=[], positive=True)
     try:
         with quiet():
             fg = FullGrid(b, o, t, factor=f, position_grid_cartesian=cart)
+            if partial_first:        # the partial matrices of workflow run_grid asked BEFORE the full ones
+                fg.get_full_adjacency(only_position=True)
+                fg.get_full_adjacency(only_orientation=True)
+                fg.get_full_distances(only_orientation=True)
+                fg.get_full_distances(only_position=True)
             pg = fg.get_position_grid()
             nB = fg.get_b_N()
             nP = len(pg)
@@ -121,8 +126,8 @@ def run(ctx: Ctx):
     ctx.model("Product", ctx.cfg("prod.cfg", cfg_text()), workers=16, note="all pairs of weighted graphs on nP, nB <= 3")
     ctx.mutant("Product", ctx.cfg("prod_m.cfg", cfg_text("strideNP", ["OperationalIsDeclarative"])), "OperationalIsDeclarative")
     recs = []
-    for (b, o, t, cart, f) in plan(thorough, rng):
-        recs.append(record(b, o, t, cart, f))
+    for k, (b, o, t, cart, f) in enumerate(plan(thorough, rng)):
+        recs.append(record(b, o, t, cart, f, partial_first=bool(k % 2)))
         ctx.count(1, nontrivial_key=(b, o, t, cart, f))
     for i, r in enumerate(recs):
         r["tid"] = i
